@@ -2,7 +2,7 @@
 
 Every case: `case <tag> <storage of A> <storage of B> <storage of X>` followed by
   lu m n A | solve mb nx B | solvev mb b | inv m n A | invip m n A | det m n A | dett n A | detmul n A B
-  | xset r c X | xvset k x
+  | solveip mb nx B (solve(B, B)) | solvevip mb b (solve(b, b)) | xset r c X | xvset k x
 Matrix families (n = 1..10): integer entries in [-9,9]; dyadic entries (all arithmetic exact, so
 exact zero pivots occur); permuted triangular; rank-deficient (integer products of thin factors,
 repeated / zero rows and columns); prescribed singular values (condition number 1..1e6 and
@@ -159,6 +159,12 @@ def square_case(rng, tag, A, integer, ops_extra=True):
             ops.append(xvset_line(rng, n))
         b = rhs(rng, n, 1, integer and rng.random() < 0.7)
         ops.append("solvev %d %s" % (n, " ".join(hx(r_[0]) for r_ in b)))
+    if rng.random() < 0.25:
+        nx = rng.randint(1, 4)                               # solve(B, B): the right-hand side is the output
+        ops.append("solveip " + mat(rhs(rng, n, nx, integer and rng.random() < 0.7)))
+    if rng.random() < 0.15:
+        b = rhs(rng, n, 1, integer and rng.random() < 0.7)
+        ops.append("solvevip %d %s" % (n, " ".join(hx(r_[0]) for r_ in b)))
     if rng.random() < 0.04:
         mb = rng.choice([x for x in range(0, 12) if x != n])
         ops.append(("solvev %d %s" % (mb, " ".join(hx(rng.randint(-9, 9)) for _ in range(mb)))).strip())
@@ -282,9 +288,11 @@ def coverage_extra(cases, answers):
                         zero_piv += 1
             if t[0] == "lu":
                 nlu = int(t[1]) if t[1] == t[2] else None
-            if t[0] in ("xset", "invip"):
+            if t[0] == "solvevip":
+                xl = int(t[1])
+            if t[0] in ("xset", "invip", "solveip"):
                 xs = (int(t[1]), int(t[2]))
-                if t[0] == "invip" and r.startswith("minD"):
+                if t[0] != "xset" and r.startswith("minD"):
                     u = r.split(";")[1].split()
                     xs = (int(u[1]), int(u[2]))
             if t[0] == "xvset":
@@ -312,7 +320,7 @@ def coverage_extra(cases, answers):
                     xl = int(r.split(";")[1].split()[1])
             if t[0] == "solve":
                 nxs[t[2]] = nxs.get(t[2], 0) + 1
-            if t[0] in ("solve", "solvev", "inv", "invip"):
+            if t[0] in ("solve", "solvev", "inv", "invip", "solveip", "solvevip"):
                 if r == "exc:zerodiv": zerodiv += 1
                 elif r.startswith("minD"): solved += 1
             if r.startswith("crash"): ub += 1
